@@ -160,13 +160,13 @@ def run(ctx):
     # ---- bounded-exhaustive two-segment patterns ----------------------------------------------
     pool = gen.seg_pool_small()
     for s1, s2 in itertools.product(pool, repeat=2):
-        for variant in range(4):
+        for variant in range(6):
             idx += 1
-            if quick and (idx * 2654435761) % 100 >= 12:
+            if quick and (idx * 2654435761) % 100 >= 9:
                 continue
             if not ctx.mine(idx):
                 continue
-            sep = ('/', '//', '\\/', '/')[variant]
+            sep = ('/', '//', '\\/', '/', '\\/\\/', '/\\/')[variant]
             toks = gen.join_segments([s1, s2], lead=(variant == 3 and idx % 3 == 0), trail=(variant == 1 or idx % 7 == 0),
                                      seps=[sep])
             if not gen.in_fragment_path(toks):
